@@ -209,11 +209,11 @@ def resolve_schedules(spec, opts, text, argv, K, ctx, rng, base):
         k = rng.randrange(K)
         for tf in (0.9,):
             clock = VirtualClock()
-            real_dt = getattr(solver_mod, 'datetime', None)
+            from ..taps import install_clock
             TAP.reset()
             TAP.install()
             TAP.clock = clock
-            solver_mod.datetime = clock
+            undo_clock = install_clock(clock)
             ex = {'events': [], 'exc': None, 'short': None, 'long': None, 'solver': None}
             try:
                 try:
@@ -239,7 +239,7 @@ def resolve_schedules(spec, opts, text, argv, K, ctx, rng, base):
                     ex['events'] = list(TAP.events)
             finally:
                 TAP.enabled = False
-                solver_mod.datetime = real_dt
+                undo_clock()
             ctx.cnt('schedules_executed')
             ctx.cnt('resolve_after_idle_schedules')
             probs, info = judge(ex, LIMIT)
